@@ -173,6 +173,16 @@ def ob_fileview_seek(ctx, res):
         res.fail("fvSeek/recursion", rec[0], "FileView::seek calls itself (`%s`) without having changed the state that led there: when the position is unknown (after a failed "
                                              "read or seek) the call takes the same branch again - unbounded recursion; the position must be asked of the underlying file" % up(rec[0]))
         return
+    # every successful exit reports the position relative to the view start
+    for r_ in walk_no_nested_fn(fn.body):
+        if r_.k == "return" and r_.get("e") is not None:
+            e_ = strip(r_["e"])
+            if e_.k == "call" and up(e_["func"]) == "Ok" and len(e_["args"]) == 1:
+                t_ = upn(fn, e_["args"][0])
+                if not re.search(r"-\s*self\.start\b", t_) and t_ not in ("0",):
+                    res.fail("fvSeek/early-return", r_, "seek returns `%s` early: every position reported by a view is relative to the view start (`p - self.start`); `%s` is a position of "
+                                                        "the underlying file (views with start > 0 then report, and callers seek back to, the wrong place)" % (up(r_)[:60], t_[:60]))
+                    return
     refs = {
         "Start": (lambda e: min(e["E"], e["S"] + e["P"]), lambda e: e["P"] >= 0),
         "End": (lambda e: min(e["E"], max(e["S"], e["E"] + e["P"])), lambda e: True),
